@@ -125,8 +125,8 @@ def run(tier, rep):
         ]
 
 
-def handle_violations(rep, res, files, sc, max_replays=10):
-    known = {k['tag']: k for k in open_findings('C05')}
+def handle_violations(rep, res, files, sc, max_replays=10, prop='C05'):
+    known = {k['tag']: k for k in open_findings(prop)}
     seen = {}
     replays = 0
     for v in res.get('violations', []):
